@@ -43,7 +43,7 @@ def _software(rng, h, db_ip, web_ip):
         h["applications"] = apps
 
 
-def base(seed):
+def base(seed, force_off=False):
     rng = random.Random(seed * 7919 + 13)
     fam = ("F1", "F2", "F3")[seed % 3]
     nodes, links, hosts = [], [], []
@@ -135,8 +135,10 @@ def base(seed):
     srv["services"] = [{"type": "database-service"}, {"type": "web-server"}]
     for h in hosts[:-1]:
         _software(rng, h, db_ip, web_ip)
-    if len(hosts) > 2 and rng.random() < 0.4:
+    if len(hosts) > 2 and (rng.random() < 0.4 or force_off):
         hosts[1]["operating_state"] = "OFF"
+    elif force_off:
+        hosts[0]["operating_state"] = "OFF"
     cfg = {"io_settings": dict(world.IO_OFF),
            "game": {"max_episode_length": rng.choice([6, 9, 16]), "ports": ["ARP", "DNS", "HTTP", "POSTGRES_SERVER", "SSH", "FTP"],
                     "protocols": ["ICMP", "TCP", "UDP"], "seed": seed % 1000 + 1},
@@ -186,8 +188,8 @@ def observation(cfg, rng, hosts):
     return {"type": "custom", "options": {"components": comps}}
 
 
-def generate(seed, max_actions=120):
-    cfg, rng, fam, hosts = base(seed)
+def generate(seed, max_actions=120, force_off=False):
+    cfg, rng, fam, hosts = base(seed, force_off)
     srv = hosts[-1]
     agents = []
     # scripted agents
